@@ -20,11 +20,14 @@ class DigestMD5(object):
 
         self.__params = {}
         pexpr = re.compile(rb'(\w+)="(.+)"')
-        for elt in base64.b64decode(challenge).split(b","):
+        directives = base64.b64decode(challenge)
+        for elt in directives.split(b","):
             m = pexpr.match(elt)
             if m is None:
                 continue
             self.__params[m.group(1)] = m.group(2)
+        self.__utf8 = b"charset=utf-8" in directives.lower()
+        self.authz_id = b""
 
     def __make_cnonce(self):
         ret = bytes(random.randint(0, 0xFF) for i in range(12))
@@ -36,12 +39,18 @@ class DigestMD5(object):
     def __hexdigest(self, value):
         return binascii.hexlify(hashlib.md5(value).digest())
 
+    def __quote(self, value):
+        """Escape a value for use inside a quoted-string."""
+        return value.replace(b"\\", b"\\\\").replace(b'"', b'\\"')
+
     def __make_response(self, username, password, check=False):
         a1 = b"%s:%s:%s" % (
             self.__digest(b"%s:%s:%s" % (username, self.realm, password)),
             self.__params[b"nonce"],
             self.cnonce,
         )
+        if self.authz_id:
+            a1 += b":" + self.authz_id
         if check:
             a2 = b":%s" % self.__digesturi
         else:
@@ -55,16 +64,17 @@ class DigestMD5(object):
 
         return self.__hexdigest(resp)
 
-    def response(self, username, password, authz_id=""):
+    def response(self, username, password, authz_id=b""):
         self.realm = self.__params.get(b"realm", b"")
         self.cnonce = self.__make_cnonce()
+        self.authz_id = authz_id
         respvalue = self.__make_response(username, password)
 
         dgres = (
             b'username="%s",%snonce="%s",cnonce="%s",nc=00000001,qop=auth,'
             b'digest-uri="%s",response=%s'
             % (
-                username,
+                self.__quote(username),
                 (b'realm="%s",' % self.realm) if len(self.realm) else b"",
                 self.__params[b"nonce"],
                 self.cnonce,
@@ -72,8 +82,10 @@ class DigestMD5(object):
                 respvalue,
             )
         )
+        if self.__utf8:
+            dgres += b",charset=utf-8"
         if authz_id:
-            dgres += b',authzid="%s"' % authz_id
+            dgres += b',authzid="%s"' % self.__quote(authz_id)
 
         return base64.b64encode(dgres)
 
